@@ -9,8 +9,9 @@ From V.Harness Require Import Run.
 Import ListNotations.
 Open Scope Z_scope.
 
-(* one cycle of stimulus: w_en + 2 * r_en + 4 * w_data   (w_data < 2^(w+3): w + 5 bits) *)
-Definition dec_inp (x : Z) : inp := Inp (Z.odd x) (x / 4) (Z.odd (x / 2)).
+(* one cycle of stimulus: w_en + 2 * r_en + 4 * rst + 8 * w_data   (w_data < 2^(w+3): w + 6 bits);
+   rst = the domain's synchronous reset in that cycle *)
+Definition dec_inp (x : Z) : inp * bool := (Inp (Z.odd x) (x / 8) (Z.odd (x / 2)), Z.odd (x / 4)).
 
 (* one cycle of outputs:
      w_rdy + 2 * r_rdy + 4 * (level + 32 * (r_data + 2^w * (dw + 256 * dr)))
@@ -48,24 +49,55 @@ Fixpoint chunk (b : Z) (k fuel : nat) (xs : list Z) : list Z :=
 
 Definition enc_trace (w : Z) (t : list out) : list Z :=
   chunk (w + 7) (per_chunk w) (length t) (map (enc_out w) t).
-Definition dec_stim (w n : Z) (chunks : list Z) : list inp :=
-  map dec_inp (unchunk (w + 5) (per_chunk w) (Z.to_nat n) chunks).
+Definition dec_stim (w n : Z) (chunks : list Z) : list (inp * bool) :=
+  map dec_inp (unchunk (w + 6) (per_chunk w) (Z.to_nat n) chunks).
 
 (* configuration in one integer: width + 16 * (depth + 256 * number of cycles) *)
 Definition cfg_w (cfg : Z) : Z := cfg mod 16.
 Definition cfg_d (cfg : Z) : Z := (cfg / 16) mod 256.
 Definition cfg_n (cfg : Z) : Z := cfg / 4096.
 
+(* internal registers and memory rows, as the harness reads them from the elaborated design:
+   SyncFIFO: produce, consume, level, rows;  SyncFIFOBuffered(depth >= 2): produce, consume, inner_level,
+   r_rdy, read-port data register, rows;  SyncFIFOBuffered(1): level, r_data;  depth 0: nothing *)
+Definition enc_core (d : Z) (c : core) : list Z :=
+  if d =? 0 then [] else [produce c; consume c; lvl c] ++ rows c.
+Definition enc_bstate (d : Z) (s : bstate) : list Z :=
+  if d =? 0 then []
+  else if d =? 1 then [blevel s; rdata s]
+  else [produce (inner s); consume (inner s); lvl (inner s); b2l (rrdy s); rdata s] ++ rows (inner s).
+
 (* the trailing 0 pairs with the verdict of the harness' deque monitor (0 = no complaint) *)
 Definition k_sync (cfg : Z) (chunks : list Z) : list Z :=
   let w := cfg_w cfg in
-  enc_trace w (sync_run w (cfg_d cfg) (dec_stim w (cfg_n cfg) chunks)) ++ [0].
+  enc_trace w (sync_run_r w (cfg_d cfg) (dec_stim w (cfg_n cfg) chunks)) ++ [0].
 Definition k_buf (cfg : Z) (chunks : list Z) : list Z :=
   let w := cfg_w cfg in
-  enc_trace w (buf_run w (cfg_d cfg) (dec_stim w (cfg_n cfg) chunks)) ++ [0].
-(* the bounded-queue specification itself, run as a machine (sanity cross-check) *)
+  enc_trace w (buf_run_r w (cfg_d cfg) (dec_stim w (cfg_n cfg) chunks)) ++ [0].
+(* ... followed by the internal state after the last cycle *)
+Definition k_sync_st (cfg : Z) (chunks : list Z) : list Z :=
+  let w := cfg_w cfg in let d := cfg_d cfg in
+  k_sync cfg chunks ++ enc_core d (sync_reach_r w d (dec_stim w (cfg_n cfg) chunks)).
+Definition k_buf_st (cfg : Z) (chunks : list Z) : list Z :=
+  let w := cfg_w cfg in let d := cfg_d cfg in
+  k_buf cfg chunks ++ enc_bstate d (buf_reach_r w d (dec_stim w (cfg_n cfg) chunks)).
+
+(* wide / deep configurations, not packed: stimulus one integer per cycle; answer per cycle
+   [w_rdy + 2 * r_rdy + 4 * (level + 4096 * (w_level + 4096 * r_level)); r_data (0 while r_rdy = 0)],
+   then the monitor verdict, then the internal state *)
+Definition enc_out_raw (o : out) : list Z :=
+  let v := vis o in
+  [b2l (w_rdy v) + 2 * b2l (r_rdy v) + 4 * (level v + 4096 * (w_level v + 4096 * r_level v)); r_data v].
+Definition k_sync_raw (w d : Z) (xs : list Z) : list Z :=
+  flat_map enc_out_raw (sync_run_r w d (map dec_inp xs)) ++ [0] ++ enc_core d (sync_reach_r w d (map dec_inp xs)).
+Definition k_buf_raw (w d : Z) (xs : list Z) : list Z :=
+  flat_map enc_out_raw (buf_run_r w d (map dec_inp xs)) ++ [0] ++ enc_bstate d (buf_reach_r w d (map dec_inp xs)).
+
+(* the bounded-queue specification itself, run as a machine without resets (sanity cross-check) *)
 Definition k_queue (cfg : Z) (chunks : list Z) : list Z :=
   let w := cfg_w cfg in
-  enc_trace w (q_run w (cfg_d cfg) (dec_stim w (cfg_n cfg) chunks)) ++ [0].
-(* constructor acceptance *)
+  enc_trace w (q_run w (cfg_d cfg) (map fst (dec_stim w (cfg_n cfg) chunks))) ++ [0].
+(* constructor acceptance: FIFOInterface.__init__ raises TypeError unless both are non-negative ints;
+   `ok` = both arguments are Python ints (the harness passes 0 for an argument that is not) *)
 Definition k_ctor (w d : Z) : list Z := [b2l (ctor_ok w d)].
+Definition k_ctor_nonint (w d : Z) : list Z := [0].
